@@ -75,7 +75,7 @@ class Run:
 
 def md_for(plan, k, log):
     """metadata plan: 0 none | 1 one dict with a counter | 2 two dicts (counter + plain) |
-    3 two dicts each with its own counter"""
+    3 two dicts each with its own counter | 4 two dicts (plain + counter)"""
     if plan == 0:
         return None, []
     rc = RC(log, k)
@@ -83,6 +83,8 @@ def md_for(plan, k, log):
         return [{"ref": rc, "id": k}], [rc]
     if plan == 2:
         return [{"ref": rc, "id": k}, {"tag": ("t", k)}], [rc]
+    if plan == 4:       # the plain dictionary first, the counter second
+        return [{"tag": ("t", k)}, {"ref": rc, "id": k}], [rc]
     rc2 = RC(log, (k, "b"))
     return [{"ref": rc, "id": k}, {"ref": rc2, "id": (k, "b")}], [rc, rc2]
 
